@@ -10,6 +10,21 @@ REPO = "/repo"
 
 
 FIRST_MISSED = {
+    "C01j": "C01-V6 constant-product share = min_i(deposit_i.multiply_ratio(total_share, pool_i)), same pool position on both sides",
+    "C01k": "C01-V1 every reserve handed to the pricing routine is net of pending fees on every reaching definition",
+    "C01l": "C01-V1 / C07-F3 the pending ledger is written back on every path to a successful return",
+    "C02k": "the check crashed (non-constant pool index in a direction table): rule exceptions are now reported as unrecognised-construct violations; also caught by C02-T3 reserves-net-of-pending-fees",
+    "C02l": "C02-T3 / C18-store a struct validated as a whole but stored field by field must assign every field the validator reads",
+    "C03j": "C03-Y7 pending (not all-time) fees excluded wherever the pair reads its balances (C01-V1 caught it at first sight)",
+    "C03k": "C03-Y8 the amplification a solver is given is used unmodified (only converted, multiplied by the coin count, forwarded)",
+    "C03l": "C03-Y9 no convergence test of a solver compares a value with itself",
+    "C05k": "C05-V7 flash_loan snapshots the raw queried balance (C06-X2 caught it at first sight)",
+    "C05l": "C05-V7 the pending-fee ledger grows by exactly this loan's protocol fee through store_fee (C07-F1 caught it at first sight)",
+    "C06l": "C06-X4 every successful return of flash_loan has scheduled the AfterTrade callback",
+    "C08j": "C08-B4 UNBOND.remove uses the key the range iteration yielded for the record",
+    "C08k": "C08-B2 GLOBAL.bonded_assets is changed only through aggregate_assets / deduct_assets (no in-place Vec edit)",
+    "C09j": "C09-D9 every EPOCHS key is id.to_be_bytes() (key order == id order for the range scans)",
+    "C10l": "C10-Q8 rollover = the expiring epoch's `available` (C09-D3 caught it at first sight)",
     "C11g": "C11-K4 the payout is skipped only for a closed total of exactly zero (ordering-domain walk)",
     "C11h": "C11-K3 every index into the open-position list in close_position is the position(..) lookup result",
     "C12i": "C12-L1 expand_flow's FLOWS.save is dominated by stored flow asset == offered asset, whatever the asset kind",
